@@ -61,13 +61,25 @@ func evalA(run *ev.Run, c *Case) (bad []int, detail string) {
 	account(run, p, text, c.Inputs, "A")
 	for _, w := range c.Inputs {
 		want := cfgm.Earley(p, w)
-		got := loxb.TableParse(lx, p.Names, w)
+		got, pan := safeTableParse(lx, p.Names, w)
+		if pan != "" {
+			return w, fmt.Sprintf("layer A (LALR table): interpreting lox's table on [%s] panicked: %s", p.Show(w), pan)
+		}
 		run.Eval(1)
 		if want != got {
 			return w, fmt.Sprintf("layer A (LALR table): input [%s] is a sentence=%v but the table parse accepts=%v", p.Show(w), want, got)
 		}
 	}
 	return nil, ""
+}
+
+func safeTableParse(lx *loxb.Lox, names []string, w []int) (ok bool, pan string) {
+	defer func() {
+		if r := recover(); r != nil {
+			pan = fmt.Sprint(r)
+		}
+	}()
+	return loxb.TableParse(lx, names, w), ""
 }
 
 func account(run *ev.Run, p *cfgm.Plain, text string, inputs [][]int, layer string) {
